@@ -445,6 +445,24 @@ theorem sideFaithful_native (off : Int) (cs : List Nat) (hall : ∀ c ∈ cs, c 
     simp only [Int.natCast_zero, Int.add_zero] at this
     exact this
 
+theorem expoToNative_some {dp : ExpoDP} {n : Native} (h : expoToNative dp = some n)
+    (hmax : ∀ c ∈ dp.pos ++ dp.neg, c ≤ maxInt64) :
+    Spec.F28_applies dp = false ∧ dp.pos.sum + dp.neg.sum + dp.zeroCount = dp.count := by
+  have hp : ∀ c ∈ dp.pos, c ≤ maxInt64 := fun c hc => hmax c (List.mem_append_left _ hc)
+  have hn : ∀ c ∈ dp.neg, c ≤ maxInt64 := fun c hc => hmax c (List.mem_append_right _ hc)
+  unfold expoToNative at h
+  split at h
+  · cases h
+  · rename_i hr
+    simp only at h
+    split at h
+    · cases h
+    · rename_i hc
+      refine ⟨?_, ?_⟩
+      · unfold Spec.F28_applies; simpa using hr
+      · rw [sum_native _ _ _ hp, sum_native _ _ _ hn] at hc
+        simpa using hc
+
 /-! ### validateMetrics -/
 
 theorem find_validate_some (fams : List Fam) (n n' d : Bytes) (t : MType) (f : Fam)
